@@ -24,6 +24,18 @@ pub const SIGMA_ALT: &[&[u8]] = &[
     b"*", b"\x00", b"\x0b", b"\x1f", b"\n", b"!", b"\xff", b"#h", b"#q", b"#b", b"#Q", b"#B", b"#3",
 ];
 
+/// A lexeme alphabet for the `Lexi` tree (multi-letter mnemonics, optional
+/// nodes, long and short forms): whole mnemonics, separators and one literal
+/// of every data kind as tokens.
+pub const SIGMA_LEXEME: &[&[u8]] = &[
+    b"SYST", b"system", b"VAL", b"SOUR", b"VOLT", b"LEV", b"level", b"MEAS", b"DATA", b"CONF", b"CH2", b"*RST", b"*IDN", b"VALU", b":", b";",
+    b"?", b" ", b",", b"\n", b"5", b"-2.5E1", b"'a b'", b"#12xy", b"ON", b"#H1F", b"@",
+];
+
+pub fn sigma_lexeme_json() -> serde_json::Value {
+    serde_json::Value::Array(SIGMA_LEXEME.iter().map(|t| crate::util::show(t).into()).collect())
+}
+
 pub fn sigma_json() -> serde_json::Value {
     serde_json::Value::Array(SIGMA.iter().map(|t| crate::util::show(t).into()).collect())
 }
